@@ -7,7 +7,7 @@ CLIENT = "internal/client"
 UM = "internal/server/usermanager"
 
 CHECKS = {}
-HOOK_COMMITS = []
+HOOK_COMMITS = ["b1f260a"]
 NOT_APPLICABLE = {}
 
 CHECKS["C04"] = {
@@ -77,6 +77,7 @@ CHECKS["C12"] = {
     "assumptions": ["a reset is seen by both ends; EOF is seen after in-flight bytes were delivered (TCP-like)"],
     "jobs": [
         {"pkg": MUX, "run": "^TestVerif_C12_Faults$", "checks": {"quick": 500, "thorough": 40000}, "shards": {"thorough": 16}, "timeout": {"quick": 300}},
+        {"pkg": MUX, "run": "^TestVerif_C12_OpenRace$", "checks": {"quick": 300, "thorough": 20000}, "shards": {"thorough": 8}, "timeout": {"quick": 300}},
         {"pkg": MUX, "run": "^TestVerif_C12_Inactivity$", "checks": {"quick": 1500, "thorough": 150000}, "shards": {"thorough": 16}, "timeout": {"quick": 300}},
     ],
 }
